@@ -19,6 +19,26 @@ pub fn gen_case(rng: &mut Rng) -> Vec<String> {
     let async_deps = rng.chance(1, 4);
     lines.push(format!("peek {}", (!async_deps && rng.chance(1, 3)) as u8));
     if async_deps { lines.push("asyncdeps 1".into()); }
+    // 1/5 of the others: `get_candidates` is asynchronous and several `get_or_cache_candidates` futures for the same few
+    // packages are alive at once - started (polled once), polled again, dropped, while the provider answers at some point
+    if !async_deps && rng.chance(1, 5) {
+        lines.push("asynccands 1".into());
+        let mut few: Vec<u32> = Vec::new();
+        for _ in 0..rng.range(1, 3) { let n = *rng.pick(&names); if !few.contains(&n) { few.push(n); } }
+        let mut live: Vec<u32> = Vec::new();
+        let mut next = 0u32;
+        for _ in 0..rng.range(8, 40) {
+            let l = match rng.below(12) {
+                0 | 1 | 2 | 3 => { live.push(next); next += 1; format!("op cstart {} {}", rng.pick(&few), next - 1) }
+                4 | 5 => if live.is_empty() { "op cdrop 0".to_string() } else { let k = rng.below(live.len() as u64) as usize; format!("op cdrop {}", live.remove(k)) },
+                6 => format!("op copen {}", rng.pick(&few)),
+                7 | 8 | 9 => if live.is_empty() { "op cpoll 0".to_string() } else { format!("op cpoll {}", rng.pick(&live)) },
+                _ => format!("op avail {}", rng.pick(&solvs)),
+            };
+            lines.push(l);
+        }
+        return lines;
+    }
     let mut pending: Vec<u32> = Vec::new();
     for _ in 0..rng.range(5, 40) {
         if async_deps {
@@ -58,8 +78,14 @@ pub fn run_case(lines: &[String]) -> Vec<String> {
         provider.gates = Some(std::rc::Rc::new(Gates::default()));
         provider.gate_deps_only = true;
     }
+    if lines.iter().any(|l| l == "asynccands 1") {
+        provider.gates = Some(std::rc::Rc::new(Gates::default()));
+    }
     let cache = SolverCache::new(provider);
     let mut out = Vec::new();
+    // the candidate requests that have been started and are neither finished nor abandoned, by handle
+    type CandsFuture<'a> = std::pin::Pin<Box<dyn std::future::Future<Output = Result<&'a resolvo::Candidates, Box<dyn std::any::Any>>> + 'a>>;
+    let mut cand_slots: Vec<(u32, CandsFuture)> = Vec::new();
     // the dependency requests that have been started and neither answered nor abandoned
     type DepsFuture<'a> = std::pin::Pin<Box<dyn std::future::Future<Output = Result<&'a Dependencies, Box<dyn std::any::Any>>> + 'a>>;
     let mut in_flight: Vec<(u32, DepsFuture)> = Vec::new();
@@ -78,6 +104,38 @@ pub fn run_case(lines: &[String]) -> Vec<String> {
                 Dependencies::Unknown(r) => format!("deps unknown {}", r.0),
             },
             "avail" => format!("bool {}", cache.are_dependencies_available_for(SolvableId(t[2].parse().unwrap())) as u8),
+            "cstart" => {
+                let (n, k): (u32, u32) = (t[2].parse().unwrap(), t[3].parse().unwrap());
+                if cand_slots.iter().any(|(x, _)| *x == k) { "busy".into() } else {
+                    let mut f: CandsFuture = Box::pin(cache.get_or_cache_candidates(NameId(n)));
+                    let mut cx = std::task::Context::from_waker(&waker);
+                    match f.as_mut().poll(&mut cx) { std::task::Poll::Ready(_) => "ready".into(), std::task::Poll::Pending => { cand_slots.push((k, f)); "pending".into() } }
+                }
+            }
+            "cdrop" => {
+                let k: u32 = t[2].parse().unwrap();
+                match cand_slots.iter().position(|(x, _)| *x == k) { Some(i) => { drop(cand_slots.remove(i)); "dropped".into() } None => "none".into() }
+            }
+            "copen" => {
+                let n: u32 = t[2].parse().unwrap();
+                if let Some(g) = &cache.provider().gates {
+                    for gate in g.gates.borrow_mut().iter_mut().filter(|x| !x.done && x.label == format!("c{n}")) { gate.done = true; }
+                }
+                "ok".into()
+            }
+            "cpoll" => {
+                let k: u32 = t[2].parse().unwrap();
+                match cand_slots.iter().position(|(x, _)| *x == k) {
+                    Some(i) => {
+                        let mut cx = std::task::Context::from_waker(&waker);
+                        match cand_slots[i].1.as_mut().poll(&mut cx) {
+                            std::task::Poll::Ready(_) => { drop(cand_slots.remove(i)); "ready".into() }
+                            std::task::Poll::Pending => "pending".into(),
+                        }
+                    }
+                    None => "none".into(),
+                }
+            }
             "dstart" => {
                 let sv: u32 = t[2].parse().unwrap();
                 if in_flight.iter().any(|(x, _)| *x == sv) { "busy".into() } else {
